@@ -155,3 +155,37 @@ INS_SHORT = ["all(long_aliases[j] in %s and %s[long_aliases[j]] is %s for j in r
              "same_except(%s, short_name, first(short_aliases, _i))" % DS,
              "implies(short_name is not None and len(short_name) > 0, short_name in %s and %s[short_name] is %s)" % (DS, DS, CO)]
 R.loop(ACO, 3, invariants=INS_SHORT, modifies=["items(%s)" % DS], fingerprint="short_alias in short_aliases")
+
+
+# ---- queries that hand out a table: a NEW dict every time, the builder's own tables stay as they are --------------------
+R.contract(M_F + ":ArgsFormat.get_options", params={"include_base": "bool"}, returns="dict[str,ref Option]",
+           ensures=["fresh(result)"], modifies=[], assumed=True,
+           note="the options of the (finished, immutable) base format as a new dict").defaults = {"include_base": True}
+R.contract(M_F + ":ArgsFormat.get_arguments", params={"include_base": "bool"}, returns="dict[str,ref Argument]",
+           ensures=["fresh(result)"], modifies=[], assumed=True,
+           note="the arguments of the base format as a new dict").defaults = {"include_base": True}
+GET_OPTIONS = B + "get_options"
+R.contract(
+    GET_OPTIONS, params={"include_base": "bool"}, returns="dict[str,ref Option]",
+    ensures=[
+        "fresh(result)",   # never the builder's own table: additions made later do not show up in what was handed out
+        "all(k in result for k in self._options)",
+        "implies(not include_base or self._base_format is None, all(k in self._options for k in result))",
+        "same_except(self._options)",
+    ],
+    modifies=[],
+)
+R.contracts[GET_OPTIONS].defaults = {"include_base": True}
+GET_ARGUMENTS = B + "get_arguments"
+R.contract(
+    GET_ARGUMENTS, params={"include_base": "bool"}, returns="dict[str,ref Argument]",
+    ensures=[
+        "fresh(result)",
+        # own arguments are all listed, each under its name, and they win over the base on a (rejected-at-insertion) clash
+        "all(k in result and result[k] is self._arguments[k] for k in self._arguments)",
+        "implies(not include_base or self._base_format is None, all(k in self._arguments for k in result))",
+        "same_except(self._arguments)",
+    ],
+    modifies=[],
+)
+R.contracts[GET_ARGUMENTS].defaults = {"include_base": True}
